@@ -7,6 +7,7 @@ TV = "RsslVerif.Thm.C02Vec."
 TD = "RsslVerif.Thm.C02Dup."
 TX = "RsslVerif.Thm.C02Text."
 TC = "RsslVerif.Thm.C02Call."
+TN = "RsslVerif.Thm.C02Names."
 # the text leg: the tree C02 reasons about reaches the user as text printed by rssl_formatter (Target::Msl).  Printing and
 # reading back is property C09's; its table obligations (re-extracted precedence / associativity / side tables of
 # format_subexpression, the parser's levels, fingerprints of the hand-modelled formatter functions) and its round-trip theorems
@@ -18,6 +19,10 @@ TEXT_THEOREMS = ["right_nested_chain_regrouped_changes_meaning"]
 CALL_THEOREMS = ["user_call_arms_as_modelled", "binds_every_parameter_of_arm", "emitted_call_binds_every_parameter",
                  "every_call_type_has_an_arm", "emitted_call_unchanged_without_globals", "object_counted_as_argument_drops_a_default",
                  "emittedArgCount_eq"]
+# names: the parameter that carries a global has the global's LEAF name; NameMap::build reserves the names of all used functions /
+# globals whatever their namespace (Gen.NameReserve, plugin of C04) and C15's theorem about the local pass is an obligation here
+NAME_THEOREMS = ["used_names_reserved_regardless_of_namespace", "usedNames_any_scope", "threaded_parameter_name_is_no_local"]
+C15_CITED = ["locals_apart_from_used"]
 DUP_THEOREMS = ["dup_sites_guarded", "guard_rows_are_ir_constructors", "repeatable_operand_is_pure_of_sound", "repeatable_operand_is_pure",
                 "struct_cast_meaning_kept", "struct_cast_clauses", "struct_cast_refuses_iff", "tested_operand_is_pure_of_sound",
                 "rem_assign_operands_are_pure", "wf_toD", "repeatable_operand_is_pure_ir_of_sound",
@@ -244,8 +249,8 @@ def custom_vec(ctx):
 
 SPEC = {
     "id": "C02",
-    "gens": ["UsageTables", "MslGenTables", "MslVecTables", "MslDupSites", "MslCallTables", "FmtTables", "ParseTables", "SyntaxTables"],
-    "lean_modules": ["RsslVerif.Thm.C02", "RsslVerif.Thm.C02Sem", "RsslVerif.Thm.C02Vec", "RsslVerif.Thm.C02Dup", "RsslVerif.Thm.C02Text", "RsslVerif.Thm.C02Call",
+    "gens": ["UsageTables", "MslGenTables", "MslVecTables", "MslDupSites", "MslCallTables", "NameReserve", "Reserved", "FmtTables", "ParseTables", "SyntaxTables"],
+    "lean_modules": ["RsslVerif.Thm.C02", "RsslVerif.Thm.C02Sem", "RsslVerif.Thm.C02Vec", "RsslVerif.Thm.C02Dup", "RsslVerif.Thm.C02Text", "RsslVerif.Thm.C02Call", "RsslVerif.Thm.C02Names", "RsslVerif.Thm.C15",
                      "RsslVerif.Thm.C09"],
     "theorems": [T + n for n in [
         "tables_as_modelled", "all_positions_descended", "implicit_names_agree",
@@ -255,7 +260,8 @@ SPEC = {
         "threaded_exactly_partial", "calculateLocal_wf", "closeProgram_ok", "threaded_exactly_program_partial",
         "mentions_calculateLocal", "threaded_exactly",
         "default_arguments_analysed", "global_initialisers_analysed"]] + [TS + n for n in SEM_THEOREMS] + [TV + n for n in VEC_THEOREMS] + [TD + n for n in DUP_THEOREMS]
-                + [TX + n for n in TEXT_THEOREMS] + [TC + n for n in CALL_THEOREMS] + ["RsslVerif.Thm.C09." + n for n in C09_CITED],
+                + [TX + n for n in TEXT_THEOREMS] + [TC + n for n in CALL_THEOREMS] + [TN + n for n in NAME_THEOREMS]
+                + ["RsslVerif.Thm.C15." + n for n in C15_CITED] + ["RsslVerif.Thm.C09." + n for n in C09_CITED],
     "harness": "c02",
     "nontrivial": nontrivial,
     "finding_key": finding_key,
